@@ -186,3 +186,12 @@ Proof.
   - intros Hl. apply H5; assumption.
   - intros Hn. destruct (h_live (fst (c_handle ev s ctr now))) eqn:El; [reflexivity|]. exfalso. apply Hn. apply H4. reflexivity.
 Qed.
+
+(* ---------- witnesses used by props/C04.v ---------- *)
+(* a server transaction in the middle of a segmented response *)
+Definition busy_server : ssm :=
+  mkSsm 1 5 SEGMENTED_RESPONSE (Some (mk_cack false false (-1) (-1) 5 12 [1; 2; 3; 4; 5; 6; 7; 8; 9; 10; 11; 12])) 5 3 0 0 false 0 0 None
+        3 3000 1500 3 (Some 64) 50 true (Some (1500, 0)) None 2 3000.
+(* a server transaction as StateMachineAccessPoint.confirmation creates it *)
+Definition fresh_server : ssm := mkSsm 1 (-1) IDLE None 0 0 0 0 false 0 0 None 3 3000 1500 3 (Some 64) 50 false None None 2 3000.
+Definition fresh_client : ssm := mkSsm 2 (-1) IDLE None 0 0 0 0 false 0 0 None 3 3000 1500 3 (Some 64) 50 false None None 2 3000.
